@@ -18,6 +18,7 @@
 //!    gave for that node (errors under an alias must carry both).
 
 mod docgen;
+mod families;
 mod lines;
 mod model;
 mod stree;
@@ -808,6 +809,10 @@ fn check_typed(run: &Run, c: &DocCase, idx: &Index, root: &SNode, m: &Matched, w
             bump(counts, "unspecified/visitor-raised-error-located-at-enclosing-container");
             return;
         }
+        if collect(st).iter().any(|d| same_pos(&p, &d.referenced) || same_pos(&p, &d.defined)) {
+            bump(counts, "unspecified/visitor-raised-error-located-inside-the-node");
+            return;
+        }
         viol(run, "C16:error-vs-span:visitor-raised:located-at-unrelated-node", case_json(c, at()), describe());
         return;
     }
@@ -991,6 +996,9 @@ fn build_doc(
     let r = ydoc::render(tree, ro);
     let d = docgen::decorate(rng, &r, tree, ro.brk, has_block, intensity, allow_prefix);
     let Some(root) = reftree::parse_one(&d.text) else {
+        if std::env::var("C16_DEBUG").is_ok() {
+            eprintln!("REJECTED {:?} | {:?}", reftree::parse_stream(&d.text).err().map(|e| (e.info, e.line, e.col)), d.text);
+        }
         run.inconclusive("generator-invalid: decorated document rejected by the raw parser");
         return None;
     };
@@ -1039,7 +1047,19 @@ const LEAVES_C16: &[Leaf] = &[
     Leaf { text: "a\\\"", style: Style::Double, unique: false },
 ];
 
+const LEAVES_C16_TINY: &[Leaf] = &[
+    Leaf { text: "é", style: Style::Plain, unique: true },
+    Leaf { text: "a\\'b\\ ü", style: Style::Single, unique: false },
+];
+
+const LEAVES_C16_SMALL: &[Leaf] = &[
+    Leaf { text: "é", style: Style::Plain, unique: true },
+    Leaf { text: "ü ✓", style: Style::Double, unique: false },
+    Leaf { text: "a\\'b\\", style: Style::Single, unique: false },
+];
+
 /// One anchor + one alias (optionally as a merge) on a base tree: every placement.
+#[allow(dead_code)]
 fn single_alias_decorations(base: &Node) -> Vec<Node> {
     let paths = treegen::node_paths(base);
     let mut out = vec![base.clone()];
@@ -1084,12 +1104,124 @@ fn single_alias_decorations(base: &Node) -> Vec<Node> {
     out
 }
 
+/// Up to two anchors (names a,a / a,b) and up to two aliases (*a / *b) on a base tree, every
+/// placement, plus the merge-key variant of an alias that is a mapping value; only trees the
+/// data model can expand (every alias has an earlier, closed anchor) are kept.
+fn two_alias_decorations(base: &Node) -> Vec<Node> {
+    let paths = treegen::node_paths(base);
+    let leaf_paths: Vec<&Vec<usize>> = paths
+        .iter()
+        .filter(|p| match treegen::node_at(base, p) {
+            Node::Scalar { .. } => true,
+            Node::Seq { items, .. } => items.is_empty(),
+            Node::Map { entries, .. } => entries.is_empty(),
+            Node::Alias(_) => false,
+        })
+        .collect();
+    let mut anchor_sets: Vec<Vec<(&Vec<usize>, &str)>> = Vec::new();
+    for p in &paths {
+        anchor_sets.push(vec![(p, "a")]);
+    }
+    for i in 0..paths.len() {
+        for j in (i + 1)..paths.len() {
+            anchor_sets.push(vec![(&paths[i], "a"), (&paths[j], "a")]);
+            anchor_sets.push(vec![(&paths[i], "a"), (&paths[j], "b")]);
+        }
+    }
+    let mut alias_sets: Vec<Vec<(&Vec<usize>, &str)>> = Vec::new();
+    for p in &leaf_paths {
+        alias_sets.push(vec![(p, "a")]);
+        alias_sets.push(vec![(p, "b")]);
+    }
+    for i in 0..leaf_paths.len() {
+        for j in (i + 1)..leaf_paths.len() {
+            for (x, y) in [("a", "a"), ("a", "b"), ("b", "a"), ("b", "b")] {
+                alias_sets.push(vec![(leaf_paths[i], x), (leaf_paths[j], y)]);
+            }
+        }
+    }
+    let mut out = vec![base.clone()];
+    for an in &anchor_sets {
+        for al in &alias_sets {
+            if an.iter().any(|(p, _)| al.iter().any(|(q, _)| p == q)) {
+                continue;
+            }
+            let mut t = base.clone();
+            for (p, name) in an {
+                let n = treegen::node_at_mut(&mut t, p);
+                *n = n.clone().with_anchor(name);
+            }
+            for (p, name) in al {
+                *treegen::node_at_mut(&mut t, p) = Node::alias(name);
+            }
+            if ydoc::expand(&t).is_none() {
+                continue;
+            }
+            out.push(t.clone());
+            for (p, _) in al {
+                if let Some((&last, parent)) = p.split_last()
+                    && last % 2 == 1
+                    && matches!(treegen::node_at(&t, parent), Node::Map { .. })
+                {
+                    let mut t2 = t.clone();
+                    let mut kp = parent.to_vec();
+                    kp.push(last - 1);
+                    let key = treegen::node_at_mut(&mut t2, &kp);
+                    if key.anchor().is_none() && !matches!(key, Node::Alias(_)) {
+                        *key = Node::plain("<<");
+                        if ydoc::expand(&t2).is_some_and(|e| merges_ok(&e)) {
+                            out.push(t2);
+                        }
+                    }
+                }
+            }
+        }
+    }
+    out
+}
+
+/// In an alias-free tree: every `<<` value is a mapping (or a sequence of mappings).
+fn merges_ok(n: &Node) -> bool {
+    match n {
+        Node::Seq { items, .. } => items.iter().all(merges_ok),
+        Node::Map { entries, .. } => entries.iter().all(|(k, v)| {
+            let is_merge = matches!(k, Node::Scalar { text, style: Style::Plain, tag: None, .. } if text == "<<");
+            let v_ok = !is_merge
+                || match v {
+                    Node::Map { .. } => true,
+                    Node::Seq { items, .. } => items.iter().all(|i| matches!(i, Node::Map { .. })),
+                    _ => false,
+                };
+            v_ok && merges_ok(k) && merges_ok(v)
+        }),
+        _ => true,
+    }
+}
+
 fn replay(run: &Run, rep: &Value) {
     let case = &rep["case"];
     let mut counts = Counts::new();
     let text = case["text"].as_str().unwrap_or("").to_string();
     if case["kind"].as_str() == Some("short") {
         check_short(run, &text, &mut counts);
+        return;
+    }
+    if case["kind"].as_str() == Some("enum") {
+        let c = families::EnumCase { text: &text, label: case["label"].as_str().unwrap_or("").to_string(), bad: case["bad"].as_bool().unwrap_or(false) };
+        families::check_enum(run, &|sig, cs, d| viol(run, sig, cs, d), &c, &mut counts);
+        return;
+    }
+    if case["kind"].as_str() == Some("static") {
+        let p = &case["params"];
+        let kinds = families::static_kinds();
+        let kind = kinds[(p["kind"].as_u64().unwrap_or(0) as usize).min(kinds.len() - 1)];
+        let holder = match p["holder"].as_i64().unwrap_or(-1) {
+            -1 => families::Holder::Field,
+            i => families::Holder::Elem(i as usize),
+        };
+        if let Some(d) = families::static_doc(kind, holder, p["via_alias"].as_bool().unwrap_or(false), p["flow"].as_bool().unwrap_or(false), p["unknown_key"].as_str().unwrap_or("zz")) {
+            families::check_static(run, &|sig, cs, dd| viol(run, sig, cs, dd), &text, kind, &d, p, &mut counts);
+        }
         return;
     }
     let tokens: Option<Vec<Vec<Option<String>>>> = case["tokens"].as_array().map(|docs| {
@@ -1122,7 +1254,7 @@ fn main() {
     let tier = run.tier;
 
     // ---- part 1: exhaustive short token strings (consistency of every location)
-    let max_len = tier.pick(3, 4);
+    let max_len = tier.pick(4, 5);
     let mut total_short = 0usize;
     for len in 0..=max_len {
         let n = ALPHABET.len().pow(len as u32);
@@ -1140,26 +1272,62 @@ fn main() {
     }
     run.count("short_strings", total_short as u64);
 
-    // ---- part 2: exhaustive small trees x one anchor/alias(/merge) x layouts x breaks x prefixes
-    let max_nodes = tier.pick(3, 4);
-    let mut bases = Vec::new();
-    for n in 1..=max_nodes {
-        bases.extend(treegen::base_trees(n, LEAVES_C16));
+    // ---- part 2: exhaustive small trees x up to two anchors + two aliases (+ merge variants) x layouts x breaks x prefixes
+    struct Level {
+        nodes: std::ops::RangeInclusive<usize>,
+        leaves: &'static [Leaf],
+        brks: &'static [&'static str],
+        prefixes: &'static [&'static str],
+        wants: &'static [Want],
+        what: &'static str,
     }
-    run.count("base_trees", bases.len() as u64);
-    let wants_small: &[Want] = &[Want::I64, Want::Bool, Want::Unit, Want::Reject];
+    const W4: &[Want] = &[Want::I64, Want::Bool, Want::Unit, Want::Reject];
+    const W1: &[Want] = &[Want::I64];
+    const B3: &[&str] = &["\n", "\r\n", "\r"];
+    const B2: &[&str] = &["\n", "\r\n"];
+    const B1: &[&str] = &["\r\n"];
+    const P3: &[&str] = &["", "# é✓ 😀", "\u{FEFF}"];
+    const P2: &[&str] = &["# é✓ 😀", "\u{FEFF}"];
+    const P1: &[&str] = &["# é✓ 😀"];
+    let levels: Vec<Level> = match tier {
+        Tier::Quick => vec![
+            Level { nodes: 1..=4, leaves: LEAVES_C16, brks: B3, prefixes: P3, wants: W4, what: "<=4 nodes over 7 scalar leaves x {LF,CRLF,CR} x {no prefix, multi-byte comment line, BOM} x 4 typed demands per node" },
+            Level { nodes: 5..=5, leaves: LEAVES_C16_SMALL, brks: B3, prefixes: P2, wants: W4, what: "5 nodes over 3 scalar leaves x {LF,CRLF,CR} x {comment line, BOM} x 4 typed demands" },
+            Level { nodes: 6..=6, leaves: LEAVES_C16_TINY, brks: B2, prefixes: P1, wants: W1, what: "6 nodes over 2 scalar leaves x {LF,CRLF} x {comment line} x 1 typed demand" },
+        ],
+        Tier::Thorough => vec![
+            Level { nodes: 1..=4, leaves: LEAVES_C16, brks: B3, prefixes: P3, wants: W4, what: "<=4 nodes over 7 scalar leaves x {LF,CRLF,CR} x {no prefix, multi-byte comment line, BOM} x 4 typed demands per node" },
+            Level { nodes: 5..=5, leaves: LEAVES_C16_SMALL, brks: B3, prefixes: P3, wants: W4, what: "5 nodes over 3 scalar leaves x {LF,CRLF,CR} x {no prefix, comment line, BOM} x 4 typed demands" },
+            Level { nodes: 6..=6, leaves: LEAVES_C16_TINY, brks: B3, prefixes: P2, wants: W4, what: "6 nodes over 2 scalar leaves x {LF,CRLF,CR} x {comment line, BOM} x 4 typed demands" },
+            Level { nodes: 7..=7, leaves: LEAVES_C16_TINY, brks: B1, prefixes: P1, wants: W1, what: "7 nodes over 2 scalar leaves x CRLF x {comment line} x 1 typed demand" },
+        ],
+    };
+    let mut bases: Vec<(Node, usize)> = Vec::new();
+    for (li, l) in levels.iter().enumerate() {
+        let before = bases.len();
+        for n in l.nodes.clone() {
+            bases.extend(treegen::base_trees(n, l.leaves).into_iter().map(|t| (t, li)));
+        }
+        run.count(&format!("small_tree_level_{li}_base_trees"), (bases.len() - before) as u64);
+    }
+    let small_scope: Vec<String> = levels.iter().map(|l| l.what.to_string()).collect();
     par_range(bases.len(), |bi| {
         let mut counts = Counts::new();
         let mut rng = Rng::stream(0xC16, bi as u64); // decoration is off here; rng unused by intensity 0
-        for t in single_alias_decorations(&bases[bi]) {
+        let (base, li) = &bases[bi];
+        let level = &levels[*li];
+        let (brks, prefixes, wants_small) = (level.brks, level.prefixes, level.wants);
+        for t in two_alias_decorations(base) {
+            bump(&mut counts, "small_tree_decorated_trees");
             for flow in [false, true] {
                 let mut t = t.clone();
                 t.set_flow(flow);
-                for brk in ["\n", "\r\n", "\r"] {
+                for &brk in brks {
+                    let brk: &'static str = brk;
                     let ro = RenderOpts { indent: 2, brk, compact: true };
                     let Some((text, toks, _)) = build_doc(&run, &mut rng, &t, &ro, false, 0, true) else { continue };
                     let toks = [toks];
-                    for prefix in ["", "# é✓ 😀", "\u{FEFF}"] {
+                    for &prefix in prefixes {
                         let text = match prefix {
                             "" => text.clone(),
                             "\u{FEFF}" => format!("\u{FEFF}{text}"),
@@ -1185,8 +1353,97 @@ fn main() {
         flush_viol(&run);
     });
 
+    let (mut enum_cells_n, mut static_cells_n) = (0usize, 0usize);
+    // ---- part 2b: Spanned inside enum payloads, three notations x alias modes (exhaustive grid)
+    {
+        let mut cells = Vec::new();
+        for &v in families::VARIANTS {
+            for &not in families::NOTATIONS {
+                for &am in families::ALIAS_MODES {
+                    for bad in [false, true] {
+                        if let Some(t) = families::enum_doc(v, not, am, bad) {
+                            cells.push((format!("{v:?}/{not:?}/{am:?}/bad={bad}"), t, bad));
+                        }
+                    }
+                }
+            }
+        }
+        run.count("enum_grid_cells", cells.len() as u64);
+        enum_cells_n = cells.len();
+        par_range(cells.len(), |i| {
+            let mut counts = families::Counts::new();
+            let (label, tree, bad) = &cells[i];
+            for brk in ["\n", "\r\n", "\r"] {
+                for prefix in ["", "# é✓ 😀", "--- # ü"] {
+                    for flow_root in [false, true] {
+                        let mut t = tree.clone();
+                        if flow_root {
+                            t.set_flow(true);
+                        }
+                        let Some(text) = families::render(&t, brk, prefix) else {
+                            run.inconclusive("generator-invalid: enum document not parsed as intended");
+                            continue;
+                        };
+                        for bom in [false, true] {
+                            let text = if bom { format!("\u{FEFF}{text}") } else { text.clone() };
+                            let c = families::EnumCase { text: &text, label: label.clone(), bad: *bad };
+                            families::check_enum(&run, &|sig, cs, d| viol(&run, sig, cs, d), &c, &mut counts);
+                            if i % 17 == 0 && brk == "\n" && !bom {
+                                run.sample(|| json!({"kind": "enum", "label": label, "text": text}));
+                            }
+                        }
+                    }
+                }
+            }
+            run.count_map(&counts);
+            flush_viol(&run);
+        });
+    }
+
+    // ---- part 2c: errors from serde's static constructors vs the documented fallback (exhaustive grid)
+    {
+        let kinds = families::static_kinds();
+        let mut cells = Vec::new();
+        for (ki, &k) in kinds.iter().enumerate() {
+            for (hi, h) in [(-1i64, families::Holder::Field), (0, families::Holder::Elem(0)), (1, families::Holder::Elem(1)), (2, families::Holder::Elem(2))] {
+                for via_alias in [false, true] {
+                    for flow in [false, true] {
+                        for uk in ["zz", "zé😀"] {
+                            if uk != "zz" && !matches!(k, families::StaticKind::UnknownField(_)) {
+                                continue;
+                            }
+                            if let Some(d) = families::static_doc(k, h, via_alias, flow, uk) {
+                                cells.push((k, d, json!({"kind": ki, "holder": hi, "via_alias": via_alias, "flow": flow, "unknown_key": uk})));
+                            }
+                        }
+                    }
+                }
+            }
+        }
+        run.count("static_grid_cells", cells.len() as u64);
+        static_cells_n = cells.len();
+        par_range(cells.len(), |i| {
+            let mut counts = families::Counts::new();
+            let (k, d, params) = &cells[i];
+            for brk in ["\n", "\r\n", "\r"] {
+                for prefix in ["", "# é✓ 😀", "--- # ü"] {
+                    let Some(text) = families::render(&d.tree, brk, prefix) else {
+                        run.inconclusive("generator-invalid: static-error document not parsed as intended");
+                        continue;
+                    };
+                    families::check_static(&run, &|sig, cs, dd| viol(&run, sig, cs, dd), &text, *k, d, params, &mut counts);
+                    if i % 23 == 0 && brk == "\n" {
+                        run.sample(|| json!({"kind": "static", "what": format!("{k:?}"), "text": text}));
+                    }
+                }
+            }
+            run.count_map(&counts);
+            flush_viol(&run);
+        });
+    }
+
     // ---- part 3: random decorated documents
-    let n_random = tier.pick(40_000, 400_000);
+    let n_random = tier.pick(800_000, 5_000_000);
     par_range(n_random, |i| {
         let mut counts = Counts::new();
         let mut rng = Rng::stream(run.seed, i as u64);
@@ -1278,12 +1535,18 @@ fn main() {
         flush_viol(&run);
     });
 
+    let (enum_cells, static_cells) = (enum_cells_n, static_cells_n);
     let scope = format!(
         "(a) all strings of <= {max_len} tokens over the 28-token C01 alphabet + CRLF + CR ({total_short} strings) x 4 targets, every error / Spanned location checked for consistency; \
-         (b) all base trees with <= {max_nodes} nodes over 7 scalar leaves (multi-byte plain, integer, multi-byte double- and single-quoted, single-quoted with backslashes and an escaped quote, the single-quoted quote, double-quoted ending in an escaped backslash + quote) + empty seq/map, undecorated or with every placement of one anchor + one later alias (and its merge-key variant), x {{block, flow}} x {{LF, CRLF, CR}} x {{no prefix, multi-byte comment line, BOM}}, every delivered node x 4 typed demands"
+         (b) all base trees of the levels [{}] (leaves: multi-byte plain, integer, multi-byte double-/single-quoted, single-quoted with backslashes and '' pairs, the single-quoted quote, double-quoted ending in escaped backslash + quote; + empty seq/map), undecorated or with every placement of <= 2 anchors (names a,a / a,b) and <= 2 later aliases (*a / *b) that the data model can expand, plus the merge-key variant of an alias that is a mapping value, x {{block, flow}}; every delivered node checked and x the typed demands; \
+         (c) enum grid: 6 variants x 3 notations (bare/mapping block/mapping flow/tag) x 4 alias modes (none, alias inside the payload, payload is an alias, whole value through an alias) x wrong-typed payload element or not = {} cells x {{LF,CRLF,CR}} x {{none, comment, ---}} x {{block, flow root}} x {{BOM or not}}; \
+         (d) static-constructor errors: unknown field at 3 positions / missing field with 3 key sets / invalid length 0,1 / unknown variant x holder (field, element 0..2 of a sequence) x in place or through an alias x block/flow x ASCII or multi-byte unknown key = {} cells x {{LF,CRLF,CR}} x {{none, comment, ---}}",
+        small_scope.join("; "),
+        enum_cells,
+        static_cells
     );
     let fin = Finish::new(
-        "a node counts when all its checks ran and either a multi-byte character or a non-LF break precedes it in the document, or it is reached through an alias/merge; typed-error cases count under the same condition; short strings count when some reported location lies after a multi-byte character or a CR; distinct by hash(text, delivered path[, demanded type])",
+        "a node counts when all its checks ran and either a multi-byte character or a non-LF break precedes it in the document, or it is reached through an alias/merge; typed-error cases count under the same condition; short strings count when some reported location lies after a multi-byte character or a CR; an enum document counts when every Spanned of every payload passed (all contain multi-byte text), a static-error document when the error sits at the documented fallback; distinct by hash(text, delivered path[, demanded type]). Random part: seeded documents (unique multi-byte scalars/keys, closing-quote stress leaves, complex `? ` keys, anchors/aliases/merges nested <= 3, decorations incl. multi-line quoted scalars), 1 in 6 as a stream of 2-4 documents read with from_multiple and with the read iterator over a reader",
     )
     .exhaustive(scope)
     .assume("the raw saphyr-parser event stream and its marks are the ground truth for what a document means and where a node starts")
